@@ -1,7 +1,13 @@
 import Hostd.Drive.Volumes
 open Hostd
 /-- arguments: `cachecopy` (sector cache holds private copies), `rollbackchecked` (StoreSector's rollback
-is conditional) select the repaired behaviour the model expects; none = the tree as first verified -/
+is conditional), `syncserial` (Sync is serialised and clears the dirty flag before the fsync), `resizelocked`
+(ResizeVolume reads the size under the status guard) select the repaired behaviour the model expects;
+none = the tree as first verified -/
 def main (args : List String) : IO Unit := do
-  let f : Volumes.Facts := { Volumes.Facts.code with cacheCopies := args.contains "cachecopy", rollbackChecked := args.contains "rollbackchecked" }
+  let f : Volumes.Facts := { Volumes.Facts.code with
+    cacheCopies := args.contains "cachecopy"
+    rollbackChecked := args.contains "rollbackchecked"
+    syncSerial := args.contains "syncserial"
+    resizeStatLocked := args.contains "resizelocked" }
   Proto.loop (← IO.getStdin) ({ f := f } : Drive.Volumes.DState) Drive.Volumes.step Drive.Volumes.stats
